@@ -5,7 +5,7 @@ M: Brackets.tla - the lexical layer (code / comments / string, char and back-quo
 G: necessary conditions checked against the real parser, the spec deciding each text:
      outcome in {tree, eval_error};  Accepts(t) => Verdict(t) = "balanced";  Trivia(t) => Accepts(t);
      an empty tree (nothing parsed) => Trivia(t)
-   (1) every text up to MaxLen over 17 character classes; (2) generated valid programs and their mutations (inserted /
+   (1) every text up to MaxLen over 18 character classes; (2) generated valid programs and their mutations (inserted /
    deleted / replaced brackets and quotes, truncations), classified by TLC; (3) string interpolations with unbalanced
    code; (4) robustness under ASan+UBSan: nesting ramps far beyond the depth limit, arbitrary bytes incl. NUL and > 0x7e,
    truncated programs - the parser must answer with a tree or eval_error, never a crash, abort or stack overflow."""
@@ -15,7 +15,7 @@ from concurrent.futures import ThreadPoolExecutor
 
 from .. import coregen, lib
 
-CHAR = {"a": "a", "sp": " ", "nl": "\n", "sc": ";", "dq": '"', "sq": "'", "bq": "`", "sl": "/", "st": "*", "hs": "#", "bs": "\\"}
+CHAR = {"a": "a", "sp": " ", "nl": "\n", "sc": ";", "dq": '"', "sq": "'", "bq": "`", "sl": "/", "st": "*", "hs": "#", "bs": "\\", "dl": "$"}
 CLS = {v: k for k, v in CHAR.items()}
 CLS.update({"\t": "sp", "\r": "sp"})
 
@@ -68,7 +68,7 @@ def run(ck, tier, seed):
         out = os.path.join(work, f"all.{k}.ndjson")
         name = f"BracketsExportAll_run_{os.getpid()}_{k}"
         with open(os.path.join(lib.SPEC, name + ".cfg"), "w") as f:
-            f.write('INIT Init\nNEXT Next\nCONSTANTS\n  Alphabet = {"(", ")", "[", "]", "{", "}", "a", "sp", "nl", "sc", "dq", "sq", "bq", "sl", "st", "hs", "bs"}\n'
+            f.write('INIT Init\nNEXT Next\nCONSTANTS\n  Alphabet = {"(", ")", "[", "]", "{", "}", "a", "sp", "nl", "sc", "dq", "sq", "bq", "sl", "st", "hs", "bs", "dl"}\n'
                     f"  MaxLen = {maxlen}\n  ShardK = {k}\n  ShardN = {shards}\n")
         try:
             r = lib.tlc("BracketsExportAll", name, workers=1, env={"OUT": out}, timeout=2400, heap="6g", extra=["-maxSetSize", "4000000"])
@@ -130,6 +130,19 @@ def run(ck, tier, seed):
              "0xg", "08", "09.5", "1uu", "1lll", "1ulu", "1.5u", "1f", "0x1p3", "1_000", "\"${" + "9" * 25 + "}\"", "'\\" + "7" * 12 + "'"]
     for i, t in enumerate(nums):
         given.append({"id": f"n{i}", "text": t, "valid": False})
+    # string-literal shapes: every text over quote, dollar, braces, a letter, a blank and `;` - alone and followed by more source text
+    # (a stray `}` before `${` closes the literal with its interpolation open; the parser must not read on beyond the literal)
+    alpha = ['"', "$", "{", "}", "a", " ", ";"]
+    shapes = [""]
+    for _ in range(5 if quick else 6):
+        shapes = [x + c for x in shapes for c in alpha] + [""]
+        shapes = list(dict.fromkeys(shapes))
+    strs = [t for t in shapes if t.count('"') >= 2 and "$" in t]
+    rnd.shuffle(strs)
+    strs = strs[:2500 if quick else 20000]
+    for i, t in enumerate(strs):
+        given.append({"id": f"q{i}", "text": t, "valid": False})
+        given.append({"id": f"q{i}s", "text": "var a = " + t + '; var b = "}"', "valid": False})
     inter = []
     for e in ["1 )", "1 ]", "(1", "1 + 2 ) * 3", "[1, 2", "f(1))", "a ) b", ") 1", "1 ) ) )", "(1) ]"]:
         for pre, post in (("", ""), ("x", "y"), ("${1}", "")):
@@ -229,7 +242,7 @@ def run(ck, tier, seed):
                 ck.violation("outcome:" + label[:60], f"parse of {label!r} ended with {oc}", {"text": s[:2000]})
     ck.extra.update({"texts_exhaustive": len(recs), "generated_and_mutated": len(given), "interpolations": len(inter), "robustness_inputs": len(rob)})
     ck.exhaustive = True
-    ck.rule = (f"every text of length <= {maxlen} over 17 character classes (exhaustive); seeded valid programs of the C03 generator with 6 mutations each; sequences of up to 3-4 statement-level keywords and blocks; numeric tokens beyond every representable range in all four bases and float shapes; interpolation "
+    ck.rule = (f"every text of length <= {maxlen} over 18 character classes (exhaustive); seeded valid programs of the C03 generator with 6 mutations each; sequences of up to 3-4 statement-level keywords and blocks; numeric tokens beyond every representable range in all four bases and float shapes; string-literal shapes over quote / $ / braces (alone and followed by more text); interpolation "
                "strings with unbalanced code; nesting ramps of 15 openers (600 to 200,000 deep), seeded byte mutations (NUL, > 0x7e, quotes, braces) under ASan/UBSan; "
                "distinct = (verdict, trivia, outcome, family)")
     ck.sample({"text": concrete(recs[len(recs) // 3]["text"]), "verdict": recs[len(recs) // 3]["verdict"]})
